@@ -58,7 +58,7 @@ def render_secgroup(r, g):
     return f'{r.choice(sec_words(True))} {nums[0]}{r.choice([" - ", " through ", " thru ", "-"])}{nums[1]}'
 
 
-def gen_desc(r, max_groups=3, max_secs=3, blocks=None, multiline=False):
+def gen_desc(r, max_groups=3, max_secs=3, blocks=None, multiline=False, repeat=0.0):
     """D = [(twprge, [(secgroup, block), ...]), ...] with distinct Twp/Rges"""
     blocks = blocks or (BLOCKS + (MULTILINE_BLOCKS if multiline else []))
     D, seen = [], set()
@@ -70,6 +70,9 @@ def gen_desc(r, max_groups=3, max_secs=3, blocks=None, multiline=False):
                 break
         secs = [(gen_secgroup(r), r.choice(blocks)) for _ in range(r.randint(1, max_secs))]
         D.append((tr, secs))
+    if len(D) >= 2 and r.random() < repeat:
+        # the first Twp/Rge comes back after another one (A, B, A): a later group under an earlier heading
+        D.append((D[0][0], [(gen_secgroup(r), r.choice(blocks)) for _ in range(r.randint(1, max_secs))]))
     return D
 
 
